@@ -372,6 +372,74 @@ static Outcome run_forked(const Clause& cl, const std::vector<uint64_t>& words, 
 	return o;
 }
 
+bool run_in_child(const std::function<std::vector<double>()>& f, std::vector<double>& result, double timeout_s)
+{
+	int pfd[2];
+	if(pipe(pfd) != 0)
+		return false;
+	fflush(stdout);
+	pid_t pid = fork();
+	if(pid == 0)
+	{
+		close(pfd[0]);
+		detail::g_jb = nullptr;	  // an exit in the child is a real exit
+		std::vector<double> v = f();
+		uint64_t n			  = v.size();
+		if(write(pfd[1], &n, 8) != 8) {}
+		size_t off = 0, len = v.size() * 8;
+		while(off < len)
+		{
+			ssize_t k = write(pfd[1], (const char*) v.data() + off, len - off);
+			if(k <= 0)
+				break;
+			off += (size_t) k;
+		}
+		close(pfd[1]);
+		_exit(0);
+	}
+	close(pfd[1]);
+	std::string buf;
+	auto t0		  = std::chrono::steady_clock::now();
+	bool timedout = false;
+	for(;;)
+	{
+		double el = std::chrono::duration<double>(std::chrono::steady_clock::now() - t0).count();
+		int ms	  = (int) std::max(0.0, (timeout_s - el) * 1000.0);
+		struct pollfd p = {pfd[0], POLLIN, 0};
+		int r			= poll(&p, 1, ms);
+		if(r == 0)
+		{
+			timedout = true;
+			break;
+		}
+		if(r < 0)
+		{
+			if(errno == EINTR)
+				continue;
+			break;
+		}
+		char tmp[65536];
+		ssize_t k = read(pfd[0], tmp, sizeof tmp);
+		if(k <= 0)
+			break;
+		buf.append(tmp, (size_t) k);
+	}
+	close(pfd[0]);
+	if(timedout)
+		kill(pid, SIGKILL);
+	int st = 0;
+	waitpid(pid, &st, 0);
+	if(timedout || !(WIFEXITED(st) && WEXITSTATUS(st) == 0) || buf.size() < 8)
+		return false;
+	uint64_t n;
+	memcpy(&n, buf.data(), 8);
+	if(buf.size() != 8 + n * 8)
+		return false;
+	result.resize(n);
+	memcpy(result.data(), buf.data() + 8, n * 8);
+	return true;
+}
+
 // ---------------------------------------------------------------------------------------------------------------
 // case files
 static void write_case_text(const std::string& path, const Clause& cl, const std::vector<uint64_t>& words, int size, const std::string& comment)
